@@ -32,6 +32,34 @@ func orReal(name string, model stubFn) stubFn {
 }
 
 func registerStrings() {
+	// strings.Replace / ReplaceAll on a symbolic subject: only the case where the
+	// needle cannot occur is modelled (otherwise the path is unsupported)
+	for _, nm := range []string{"strings.Replace", "strings.ReplaceAll"} {
+		nm := nm
+		concrete := natives[nm]
+		natives[nm] = func(m *Machine, c *frame, fn *ssa.Function, a []Value) Value {
+			if !symArgs(m, a) {
+				return concrete(m, c, fn, a)
+			}
+			s, old := m.term(a[0]), m.term(a[1])
+			if m.branch(sym.StrContains(s, old)) {
+				m.unsupported("%s on a symbolic string containing the pattern", nm)
+			}
+			return s
+		}
+	}
+	natives["strings.Split"] = func(concrete stubFn) stubFn {
+		return func(m *Machine, c *frame, fn *ssa.Function, a []Value) Value {
+			if !symArgs(m, a) {
+				return concrete(m, c, fn, a)
+			}
+			s, sep := m.term(a[0]), m.term(a[1])
+			if m.branch(sym.StrContains(s, sep)) {
+				m.unsupported("strings.Split on a symbolic string containing the separator")
+			}
+			return []Value{s}
+		}
+	}(natives["strings.Split"])
 	natives["strings.HasPrefix"] = orReal("strings.HasPrefix", func(m *Machine, c *frame, fn *ssa.Function, a []Value) Value {
 		return sym.StrPrefixOf(m.term(a[1]), m.term(a[0]))
 	})
